@@ -29,7 +29,7 @@ func init() {
 			}},
 		},
 		Meta: eng.PropMeta{
-			Explanation: "Decides the structural mechanisms replica convergence rests on: (LWW-TABLE) the 9-cell decision table of LWW.setValue over (priority order x value order) is 'overwrite iff (priority,value) is lexicographically greater' — a max over a total order, hence commutative/associative/idempotent; (NOTFOUND) every store.Get in package crdt filters corekv.ErrNotFound before propagating (a null write deletes the key, so a well-formed merge must tolerate absence); (DELETED-REDIRECT) every CRDT that writes value keys probes the primary-key marker and redirects to the deleted key space before any value access; (SORT-BEFORE-BUILD) coreblock.New sorts heads and links before use and heads.List sorts before returning (block bytes independent of store iteration order); (WALK-PARTITION) the merge enqueue walk follows Heads only and the apply recursion Links only; (MERGE-SERIAL) executeMerge runs between mergeQueue.add/deferred done with the same key and is retried exactly on ErrTxnConflict; (UNKNOWN-FIELD-SKIP) an unknown field yields a skipped block, not an error; (ERRFLOW) no storage-derived error is dropped, only logged, or replaced by a nil variable inside the merge cone.",
+			Explanation: "Decides the structural mechanisms replica convergence rests on: (LWW-TABLE) the 9-cell decision table of LWW.setValue over (priority order x value order) is 'overwrite iff (priority,value) is lexicographically greater' — a max over a total order, hence commutative/associative/idempotent; (NOTFOUND) every store.Get in package crdt filters corekv.ErrNotFound before propagating (a null write deletes the key, so a well-formed merge must tolerate absence); (DELETED-REDIRECT) every CRDT that writes value keys probes the primary-key marker and redirects to the deleted key space before any value access; (SORT-BEFORE-BUILD) coreblock.New sorts heads and links before use and heads.List sorts before returning (block bytes independent of store iteration order); (WALK-PARTITION) the merge enqueue walk follows Heads only and the apply recursion Links only; (MERGE-SERIAL) executeMerge runs between mergeQueue.add/deferred done with the same key and is retried exactly on ErrTxnConflict; (UNKNOWN-FIELD-SKIP) an unknown field yields a skipped block, not an error; (ERRFLOW) no storage-derived error is dropped, only logged, or replaced by a nil variable inside the merge cone. (SYNC-INDEX-TABLE) after a merge the index is maintained according to the 4-cell table over (document absent before, absent after): index / un-index / update / nothing — a nil document never reaches the index code, so a merge cannot fail on one replica only.",
 			NotDecided:  "that the walk's stop condition (headHeight, heads at different heights) visits exactly the unmerged ancestors for every DAG shape (the 3-replica re-application named in the property is a runtime-shape question); equality of query results across replicas; interaction with unique indexes",
 		},
 	})
